@@ -28,7 +28,8 @@ def bs_paths(ctx, due):
     f = ctx.repo.method(PROJECT, "backward_simulate")
     out = []
     for rl in (True, False):
-        I = mk_interp(ctx, exc_in_try=True)
+        # private helpers of the project class are followed (the public entry points simulate / reverse_log_information are not)
+        I = mk_interp(ctx, exc_in_try=True, inline=lambda call, callee, depth: callee.cls == PROJECT and callee.name.startswith("_") and not callee.name.endswith("__"), max_depth=3)
         outs = I.run_function(f, bind={"considering_due_time_of_tail_tasks": Const(due), "reverse_log_information": Const(rl)})
         out.extend((st, ex, rl) for st, ex in outs)
     return f, out
@@ -123,6 +124,24 @@ def r17_2(ctx):
     ctx.end()
 
 
+def local_names(ctx, trace):
+    """(function qualname, local name) -> name of the caller's local that was passed for it (through inlined calls)."""
+    ren = {}
+    for e in flatten(trace):
+        if isinstance(e, Call) and e.inlined and e.callees and isinstance(e.node, ast.Call):
+            q = e.callees[0]
+            c, _, n = q.partition(".")
+            callee = ctx.repo.lookup_method(c, n) if n else ctx.repo.functions.get(c)
+            if callee is None:
+                continue
+            params = [p for p in callee.params if p != "self"]
+            pairs = list(zip(params, e.node.args)) + [(kw.arg, kw.value) for kw in e.node.keywords if kw.arg]
+            for p, a in pairs:
+                if isinstance(a, ast.Name):
+                    ren[(q, p)] = ren.get((e.func.qualname, a.id), a.id)
+    return ren
+
+
 def r17_3(ctx):
     ctx.begin("R17.3", "helper tasks: tracked in the same block as they are linked and appended; cleanup removes each from task_list and from the linked predecessor list", floor=2)
     f, paths = bs_paths(ctx, True)
@@ -147,10 +166,11 @@ def r17_3(ctx):
         for a in direct:
             ctx.violation(construct(f, "helper-untracked"), a.loc, "a task is appended to workflow.task_list outside the tracked helper block")
         # cleanup
-        tracked_names = {e.attr for e in flatten(top) if isinstance(e, Mut) and e.attr.startswith("$") and e.op in ("add", "append")}
+        ren = local_names(ctx, top)
+        tracked_names = {"$" + ren.get((e.func.qualname, e.attr[1:]), e.attr[1:]) for e in flatten(top) if isinstance(e, Mut) and e.attr.startswith("$") and e.op in ("add", "append")}
         ok_rm, ok_unlink = False, False
         for lp in [e for e in top if isinstance(e, Loop)]:
-            if "$" + lp.iter_text not in tracked_names:
+            if "$" + ren.get((lp.func.qualname, lp.iter_text), lp.iter_text) not in tracked_names:
                 continue
             for tr, ex2 in lp.alts:
                 for e in flatten(tr):
